@@ -20,7 +20,9 @@ static cJSON *vf_stub_duplicate(const cJSON *item, cJSON_bool recurse)
     return n;
 }
 #define cJSON_Duplicate vf_stub_duplicate
+#include "vf_trap.h"
 #include "cJSON_Utils.c"
+#include "vf_untrap.h"
 #undef cJSON_Duplicate
 
 int main(VF_MAIN_ARGS)
